@@ -4,6 +4,7 @@ import itertools
 import json
 import math
 import operator
+import random
 import os
 from fractions import Fraction as F
 
@@ -452,9 +453,19 @@ def run_C06(ctx):
                     cases.append({'t': 'bin', 'op': op, 'a': [ka, gen_value(ctx.rng, ka, 3), ua],
                                   'b': [kb, gen_value(ctx.rng, kb, 3), ub]})
         eval_bin(ctx, cases)
+    # operands whose magnitudes are Python ints (legal everywhere a float is), over the ordered unit pairs of each kind
+    # — sum, difference and same-kind ratio; a generator of its own
+    irng = random.Random(f'C06-int-{ctx.seed}')
+    cases = []
+    for k in KINDS:
+        for ua, ub in itertools.product(units_of(k), repeat=2):
+            for op in ('add', 'sub', 'div'):
+                va, vb = irng.choice([1, 2, 3, 5, 12, 100, 3000]), irng.choice([1, 2, 3, 5, 7, 1000])
+                cases.append({'t': 'bin', 'op': op, 'a': [k, va, ua], 'b': [k, vb, ub]})
+    eval_bin(ctx, cases)
     eval_laws(ctx, ctx.budget(400, 20000) * ctx.boost)
     ctx.rule = ('every ordered pair of the 13 kinds plus numbers x {+,-,*,/} x random units and magnitudes '
-                '(thorough: every unit pair of every dimensionally valid cell); non-trivial = the operation returned a value')
+                '(thorough: every unit pair of every dimensionally valid cell), plus Python-int magnitudes over the ordered unit pairs of each kind; non-trivial = the operation returned a value')
 
 
 def replay_C06(ctx, case):
@@ -674,10 +685,17 @@ def run_C05(ctx):
                 for op in CMPS:
                     cmps.append({'t': 'cmp', 'c': op, 'a': [k, v, u], 'b': [k2, w, u2]})
                     cmps.append({'t': 'cmp', 'c': op, 'a': [k2, w, u2], 'b': [k, v, u]})
+    # magnitudes given as Python ints (legal everywhere a float is): one per ordered unit pair, from a generator of
+    # its own so that the streams above stay what they were
+    irng = random.Random(f'C05-int-{ctx.seed}')
+    for k in KINDS:
+        for u, u2 in itertools.product(units_of(k), repeat=2):
+            v = irng.choice([1, 1, 2, 3, 5, 7, 12, 100, 1000, 3000, 86400]) * (1 if k in SIGN or irng.random() < 0.7 else -1)
+            conv.append({'t': 'conv', 'k': k, 'v': v, 'u': u, 'u2': u2})
     eval_conv(ctx, conv)
     eval_cmp(ctx, cmps)
     ctx.rule = ('all 13 kinds x all ordered unit pairs (exhaustive) x sampled magnitudes over up to 30 decades: '
-                'copy / in-place / round-trip conversion and the six comparisons in both operand orders; '
+                'copy / in-place / round-trip conversion (float magnitudes, plus one Python-int magnitude per pair) and the six comparisons in both operand orders; '
                 'non-trivial = the two units differ')
 
 
